@@ -121,14 +121,44 @@ def refresh_inputs_arg(pid):
             nm = v.arr(names)
             cl.append(z3.ForAll([KQ], z3.Implies(z3.And(KQ >= 0, KQ < nm.n), inp.dom[nm.arr[KQ]])))
         return z3.And(*cl)
+    KEYS = ('j_args', 's_args', 'ia_args', 'ii_args', 'ij_args')
+
+    def calls_dict(ex, st, args, kw, node):
+        # self.calls.__dict__[key]: the per-function argument-name tables; one arbitrary function 'fn0' with an arbitrary list of
+        # declared argument names stands for every entry (the body treats all entries alike)
+        key = args[1]
+        if not (isinstance(key, str) and key in KEYS):
+            raise Unsupported('calls.__dict__[%r]' % (key,))
+        names = TSeq(elem=K).make(st, 'names_' + key)
+        c = st.content(names)
+        inp = st.content(st.load('self._input'))
+        st.assume(z3.ForAll([KQ], z3.Implies(z3.And(KQ >= 0, KQ < c.n), inp.dom[c.arr[KQ]])))
+        st.ghost['src'] = dict(st.ghost.get('src') or {}, **{key: names})
+        return st.new_ref(DictC({'fn0': names}), 'src_' + key)
+
+    def post_tables(old, new, res):
+        inp = old.arr('self._input')
+        cl = []
+        src = new.st.ghost.get('src') or {}
+        for key in KEYS:
+            if key not in src:
+                return z3.BoolVal(False)       # the table of this kind was not even read
+            d = new.st.content(new.get('self.' + key))
+            if not isinstance(d, DictC) or set(d.items) != {'fn0'}:
+                return z3.BoolVal(False)
+            out, nm = new.st.content(d.items['fn0']), new.st.content(src[key])
+            k = fresh('k', I)
+            cl.append(z3.And(out.n == nm.n, z3.ForAll([k], z3.Implies(z3.And(k >= 0, k < nm.n), out.arr[k] == inp.val[nm.arr[k]]))))
+        return z3.And(*cl)
     c = Contract(FM, 'Model.refresh_inputs_arg', pid=pid, params={'self': TObj()},
                  schema={'self._input': TMap(K, VAL), 'self.calls.f_args': TSeq(elem=K), 'self.calls.g_args': TSeq(elem=K),
                          'self.calls.sns_args': TSeq(elem=K), 'self.f_args': TSeq(elem=VAL), 'self.g_args': TSeq(elem=VAL),
-                         'self.sns_args': TSeq(elem=VAL), 'self.calls.__dict__': TOpaque('D')},
+                         'self.sns_args': TSeq(elem=VAL), 'self.calls.__dict__': TOpaque('D'), 'self.flags.initialized': TBool()},
                  requires=[('every-declared-argument-name-is-an-input', names_present)],
                  calls={'list': lambda ex, st, a, k, n: st.new_ref(ListC([]), 'l'), 'dict': lambda ex, st, a, k, n: st.new_ref(DictC({}), 'd'),
-                        '__objdict__': lambda ex, st, a, k, n: st.new_ref(DictC({}), 'src')},
-                 ensures=[('args[k]=_input[declared_names[k]]', post)],
+                        '__objdict__': calls_dict},
+                 ensures=[('args[k]=_input[declared_names[k]]', post),
+                          ('every-per-function-table(j,s,ia,ii,ij)-is-rebuilt-from-the-name-table,whatever-state-the-model-is-in', post_tables)],
                  modifies=['self.*'])
     return c
 
